@@ -369,7 +369,7 @@ def _empty_trace(recipe):
             "verts": [], "lists": [], "tris": [], "trifacet": [],
             "gmf": dict({"records": [], "rots": [], "recip": [[1, 0, 0], [0, 1, 0], [0, 0, 1]]}, **recipe.get("gmf", {})),
             "mesh": {"exc": "skipped", "tie": True, "verts": [], "faces": [], "vol6s": big(0)},
-            "scale": {"sn": sn, "sd": sd, "exc": "skipped", "verts": [], "offgrid": False},
+            "scale": {"sn": sn, "sd": sd, "exc": "skipped", "verts": [], "tris": [], "offgrid": False},
             "meta": {"recipe": recipe, "source": "seeded-" + recipe["kind"], "impl_call": "WulffConstruction.from_gmf_and_crystal",
                      "nontrivial": True}}
 
@@ -387,7 +387,7 @@ def drive_facets(recipe, prebuilt=None):
          "gmf": dict({"records": [], "rots": [], "recip": [[1, 0, 0], [0, 1, 0], [0, 0, 1]]}, **recipe.get("gmf", {})),
          "verts": [], "lists": [[] for _ in facets], "tris": [], "trifacet": [],
          "mesh": empty_mesh,
-         "scale": {"sn": sn, "sd": sd, "exc": "skipped", "verts": [], "offgrid": False},
+         "scale": {"sn": sn, "sd": sd, "exc": "skipped", "verts": [], "tris": [], "offgrid": False},
          "meta": {"recipe": recipe, "source": "seeded-" + recipe["kind"],
                   "impl_call": "WulffConstruction(v/w, p/%d) [%d facets]; .wulff_vertices/.wulff_facets/"
                                ".wulff_triangles/.to_trimesh(); again with energies * %d/%d"
@@ -460,7 +460,8 @@ def drive_facets(recipe, prebuilt=None):
             h = sproj.point(v * (q * sd) / sn)
             g = math.gcd(math.gcd(abs(sn * h[0]), abs(sn * h[1])), math.gcd(abs(sn * h[2]), h[3])) or 1
             return [sn * h[0] // g, sn * h[1] // g, sn * h[2] // g, h[3] // g]
-        t["scale"].update(exc="", verts=[rescaled(v) for v in np.asarray(w2.wulff_vertices)])
+        t["scale"].update(exc="", verts=[rescaled(v) for v in np.asarray(w2.wulff_vertices)],
+                          tris=[_ints(tr) for tr in np.asarray(w2.wulff_triangles)])
     except Exception as e:
         t["scale"]["exc"] = type(e).__name__
     t["scale"]["offgrid"] = sproj.offgrid
